@@ -31,6 +31,10 @@ pub trait ColApi: PixelColor + Copy + PartialEq + core::fmt::Debug {
     fn storage(self) -> u32;
     fn be(self) -> Vec<u8>;
     fn le(self) -> Vec<u8>;
+    /// `self.to_ne_bytes()`
+    fn ne(self) -> Vec<u8>;
+    /// `<Self as Default>::default()`
+    fn dflt() -> Self;
     /// r,g,b (rgb) / luma three times (gray) / is_on three times (binary)
     fn chans(self) -> [u8; 3];
     /// `new(r, g, b)` (rgb) / `new(ch[0])` (gray) / `(ch[0] != 0).into()` (binary)
@@ -58,6 +62,12 @@ macro_rules! common_api {
         }
         fn le(self) -> Vec<u8> {
             self.to_le_bytes().to_vec()
+        }
+        fn ne(self) -> Vec<u8> {
+            self.to_ne_bytes().to_vec()
+        }
+        fn dflt() -> Self {
+            <$t as Default>::default()
         }
     };
 }
@@ -160,8 +170,8 @@ fn info<C: ColApi>() -> String {
         Kind::Bin => "-".to_string(),
     };
     format!(
-        "kind={} bpp={} sbits={} nbytes={} max={} black={} white={}",
-        kind_str(C::KIND), C::BPP, C::SBITS, C::black().be().len(), max, C::black().storage(), C::white().storage()
+        "kind={} bpp={} sbits={} nbytes={} max={} black={} white={} default={}",
+        kind_str(C::KIND), C::BPP, C::SBITS, C::black().be().len(), max, C::black().storage(), C::white().storage(), C::dflt().storage()
     )
 }
 
@@ -261,6 +271,15 @@ fn check_value<C: ColApi>(c: C, what: &str, src: u64) -> Result<(), String> {
     if st != raw || be.len() != nbytes || le.len() != nbytes || bev != st as u64 || lev != st as u64 {
         return fail("bytes_agree", format!("raw {} storage {} be {:?} le {:?}", raw, st, be, le));
     }
+    // ToBytes::to_ne_bytes: native order = little endian on this host (and the reverse of the big endian bytes)
+    let ne = c.ne();
+    let native_is_le = cfg!(target_endian = "little");
+    let want_ne = if native_is_le { le.clone() } else { be.clone() };
+    let mut rev_be = be.clone();
+    rev_be.reverse();
+    if ne != want_ne || (native_is_le && ne != rev_be) {
+        return fail("bytes_agree", format!("entry=ToBytes::to_ne_bytes gives {:?}, to_le_bytes {:?}, to_be_bytes {:?} (host little endian: {})", ne, le, be, native_is_le));
+    }
     Ok(())
 }
 
@@ -317,6 +336,10 @@ fn p_new<C: ColApi>(r0: u32, r1: u32) -> String {
     {
         return format!("FAIL class=new_channels type={} maxima {:?}", C::NAME, m);
     }
+    // Default::default() is the all-zero colour = BLACK / Off
+    if C::dflt() != C::black() || C::dflt().storage() != 0 {
+        return format!("FAIL class=default type={} entry=Default::default gives {:?}, expected {:?}", C::NAME, C::dflt(), C::black());
+    }
     let other = if C::KIND == Kind::Rgb { 256u32 } else { 1 };
     let mut n = 0u64;
     for r in r0..r1 {
@@ -370,6 +393,39 @@ fn p_named<C: ColApi + RgbColor>() -> String {
     }
     "OK 8".to_string()
 }
+/// BinaryColor's own methods: invert, is_on, is_off, From<bool>, Default
+fn p_binary() -> String {
+    use BinaryColor::{Off, On};
+    let fail = |entry: &str, msg: String| format!("FAIL class=binary type=BinaryColor entry=BinaryColor::{} {}", entry, msg);
+    if On.invert() != Off || Off.invert() != On {
+        return fail("invert", format!("invert(On) = {:?}, invert(Off) = {:?}", On.invert(), Off.invert()));
+    }
+    for c in [Off, On] {
+        if c.invert().invert() != c {
+            return fail("invert", format!("invert(invert({:?})) = {:?}", c, c.invert().invert()));
+        }
+        if c.is_on() != (c == On) {
+            return fail("is_on", format!("is_on({:?}) = {}", c, c.is_on()));
+        }
+        if c.is_off() != (c == Off) || c.is_off() == c.is_on() {
+            return fail("is_off", format!("is_off({:?}) = {}, is_on = {}", c, c.is_off(), c.is_on()));
+        }
+        if c.invert().is_on() != c.is_off() {
+            return fail("invert", format!("is_on(invert({:?})) = {}", c, c.invert().is_on()));
+        }
+        // raw view: Off <-> 0, On <-> 1, invert flips the raw bit
+        if c.invert().storage() != 1 - c.storage() {
+            return fail("invert", format!("storage of invert({:?}) = {}", c, c.invert().storage()));
+        }
+    }
+    if BinaryColor::from(true) != On || BinaryColor::from(false) != Off {
+        return fail("from_bool", format!("from(true) = {:?}, from(false) = {:?}", BinaryColor::from(true), BinaryColor::from(false)));
+    }
+    if BinaryColor::default() != Off {
+        return fail("default", format!("default() = {:?}", BinaryColor::default()));
+    }
+    "OK 2".to_string()
+}
 macro_rules! with_rgb {
     ($name:expr, $f:ident) => {
         match $name {
@@ -389,6 +445,7 @@ pub fn run(suite: &str, a: &[&str]) -> Option<String> {
         "col_new" => with_color!(a[0], new_items(p64(a[1]) as usize, p64(a[2]) as u8, p64(a[3]) as u8)),
         "p_raw" => with_color!(a[0], p_raw(p64(a[1]), p64(a[2]), p64(a[3]))),
         "p_new" => with_color!(a[0], p_new(p64(a[1]) as u32, p64(a[2]) as u32)),
+        "p_binary" => return Some(p_binary()),
         "named" => return Some(with_rgb!(a[0], named_items).unwrap_or_else(|| format!("NOT-RGB {}", a[0]))),
         "p_named" => return Some(with_rgb!(a[0], p_named).unwrap_or_else(|| format!("FAIL class=named_constants type={} is not an RGB type", a[0]))),
         _ => return None,
